@@ -19,6 +19,7 @@ import PV.Prog.RtParams
 -/
 set_option linter.unusedSimpArgs false
 set_option linter.unusedVariables false
+set_option linter.unusedSectionVars false
 namespace PV.C04.PR
 open PV.Expr PV.C11 PV.Prog
 
@@ -169,14 +170,16 @@ theorem class_context {ts pre s : List Tok} {t : Tok} (hts : ts = pre ++ t :: s)
     simp [hr f d] at hf
   · simp [ht] at hn
 
-/-- **case, at any depth** -/
+/-- **case, at any depth**: `Patterns` must read what follows the `case` token up to an `if` or a `:` -/
 theorem case_context {ts pre s : List Tok} {t : Tok} (hts : ts = pre ++ t :: s) (ht : tk t = .hk .case)
-    (hr : ∀ f, parsePatterns f s = none) (mode : Mode) (fuel : Nat) : parseTopT mode fuel ts = none := by
+    (hr : ∀ f p r, parsePatterns f s ≠ some (p, .kw .if :: r) ∧ parsePatterns f s ≠ some (p, .op .colon :: r))
+    (mode : Mode) (fuel : Nat) : parseTopT mode fuel ts = none := by
   apply Option.eq_none_iff_forall_ne_some.mpr
   intro m h
   rcases top_at h hts with ⟨g, _⟩ | hn
-  · obtain ⟨f, hf⟩ := g.2.2.2.1 ht
-    simp [hr f] at hf
+  · obtain ⟨f, p, r, hf | hf⟩ := g.2.2.2.1 ht
+    · exact (hr f p r).1 hf
+    · exact (hr f p r).2 hf
   · simp [ht] at hn
 
 /-- **return, at any depth** -/
@@ -1321,7 +1324,7 @@ def CaseSite (ts X : List Tok) : Prop := ∃ pre t, ts = pre ++ t :: X ∧ tk t 
 
 theorem caseSite_rejected {ts X : List Tok} (site : CaseSite ts X) (h : ∀ f, parsePattern f X = none) : RejectedT ts := by
   obtain ⟨pre, t, hts, ht⟩ := site
-  exact fun mode fuel => case_context hts ht (patterns_first_rejects h) mode fuel
+  exact fun mode fuel => case_context hts ht (fun f p r => by simp [patterns_first_rejects h f]) mode fuel
 
 
 /-! ### for concrete inputs: a successful call written with its own result (all side conditions closed terms) -/
@@ -1346,5 +1349,44 @@ theorem opt_quad_eq {α β γ δ : Type} {o : Option (α × β × γ × δ)} (h 
   cases o with
   | none => simp at h
   | some v => rfl
+
+
+/-- **`as _` anywhere in the pattern after `case`** (sequence / class / group / or-pattern elements, at any depth of the
+    pattern): the tokens `P` between `case` and the `as` contain no `if` and no `:` token (so the guard or the colon that
+    ends the pattern comes after the `as _`) -/
+theorem as_underscore_in_pattern_rejects {X P rest : List Tok} {t : Tok} (hX : X = P ++ t :: .name [95] :: rest)
+    (ht : tk t = .hk .as) (hP : ∀ h ∈ P, h ≠ .kw .if ∧ h ≠ .op .colon) (f : Nat) (p : Pattern) (r : List Tok) :
+    parsePatterns f X ≠ some (p, .kw .if :: r) ∧ parsePatterns f X ≠ some (p, .op .colon :: r) := by
+  have key : ∀ (h0 : Tok) (r : List Tok), (h0 = .kw .if ∨ h0 = .op .colon) → parsePatterns f X ≠ some (p, h0 :: r) := by
+    intro h0 r hh hc
+    have hseg := parsePatterns_segA hc
+    have hlen : (h0 :: r).length ≤ (Tok.name [95] :: rest).length := by
+      obtain ⟨pre, hpre, _⟩ := hseg
+      have h1 : pre ++ (h0 :: r) = P ++ t :: (.name [95] :: rest) := by rw [← hpre, hX]
+      rcases List.append_eq_append_iff.mp h1 with ⟨a', ha, hb⟩ | ⟨c', ha, hb⟩
+      · -- P = pre ++ a', h0 :: r = a' ++ t :: …
+        cases a' with
+        | nil =>
+          simp at hb
+          obtain ⟨rfl, _⟩ := hb
+          rcases hh with rfl | rfl <;> simp [tk] at ht
+        | cons x a'' =>
+          simp at hb
+          obtain ⟨rfl, _⟩ := hb
+          have := hP h0 (by rw [ha]; simp)
+          rcases hh with rfl | rfl <;> simp at this
+      · -- pre = P ++ c', t :: … = c' ++ h0 :: r
+        cases c' with
+        | nil =>
+          simp at hb
+          obtain ⟨rfl, _⟩ := hb
+          rcases hh with rfl | rfl <;> simp [tk] at ht
+        | cons x c'' =>
+          simp at hb
+          have := congrArg List.length hb.2
+          simp at this ⊢
+          omega
+    exact SegA.at hseg hX hlen ht rest rfl
+  exact ⟨key _ r (Or.inl rfl), key _ r (Or.inr rfl)⟩
 
 end PV.C04.PR
